@@ -568,6 +568,23 @@ func Leaves(full bool) []*Spec {
 	add(fixed("reflect:rawmessage-with-newline", func(k string) zapcore.Field {
 		return zap.Reflect(k, json.RawMessage("{\n \"x\" :\t[1,\n2]}"))
 	}, jsonx.O().Add("x", jsonx.A(jsonx.N("1"), jsonx.N("2")))))
+	// error groups (Errors() []error) whose own Error() works while a member's does not
+	nilMember := leaf("error:group-with-nil-pointer-member", func(k string) zapcore.Field {
+		var missing *derefErrX
+		return zap.NamedError(k, groupErr{[]error{errors.New("ok1"), missing, errors.New("ok2")}})
+	}, func(k string, r Ref) []jsonx.Member {
+		return []jsonx.Member{{Key: k, Val: jsonx.S("group failed")}, {Key: k + "Causes", Val: jsonx.A(
+			jsonx.O().Add("error", jsonx.S("ok1")), jsonx.O().Add("error", jsonx.S("<nil>")), jsonx.O().Add("error", jsonx.S("ok2")))}}
+	})
+	add(nilMember)
+	boomMember := leaf("error:group-with-panicking-member", func(k string) zapcore.Field {
+		return zap.NamedError(k, groupErr{[]error{errors.New("ok1"), boomErrX{}, errors.New("ok2")}})
+	}, func(k string, r Ref) []jsonx.Member {
+		// the members up to the failing one are in the array; what the array holds from the failing member on is not pinned
+		return []jsonx.Member{{Key: k, Val: jsonx.S("group failed")}, {Key: k + "Causes", Val: jsonx.AnyValue()}, {Key: k + "Error", Val: jsonx.Containing("member exploded")}}
+	})
+	boomMember.Fault = true
+	add(boomMember)
 	fj := leaf("reflect:failing-json-marshaler", func(k string) zapcore.Field { return zap.Reflect(k, failingJSON{}) }, func(k string, r Ref) []jsonx.Member {
 		return one(k+"Error", jsonx.S("json: error calling MarshalJSON for type encx.failingJSON: mj \"failed\""))
 	})
@@ -736,3 +753,17 @@ func decodeRune(s string) (rune, int) {
 	}
 	return 0, 0
 }
+
+type derefErrX struct{ host string }
+
+func (e *derefErrX) Error() string { return "lookup " + e.host } // nil receiver: nil dereference
+
+type boomErrX struct{}
+
+func (boomErrX) Error() string { panic("member exploded") }
+
+// groupErr is an error group in the multierr style whose own message does not depend on its members.
+type groupErr struct{ errs []error }
+
+func (g groupErr) Error() string   { return "group failed" }
+func (g groupErr) Errors() []error { return g.errs }
